@@ -88,7 +88,12 @@ class ArrayConstraintBuilder(ConstraintOverrideVisitor):
         self.foreach_scope_s.pop()
         
     def visit_constraint_if_else(self, c:ConstraintIfElseModel):
-        is_x, val = XExprEvaluator(self.index_set).eval(c.cond)
+        if self.do_copy_level > 0:
+            is_x, val = XExprEvaluator(self.index_set).eval(c.cond)
+        else:
+            # Not inside a foreach that is being expanded: keep both branches 
+            # (arrays used in either of them must be expanded)
+            is_x, val = (True, None)
         
         if not is_x:
             # Condition is a constant
@@ -112,11 +117,13 @@ class ArrayConstraintBuilder(ConstraintOverrideVisitor):
 
     def visit_expr_array_sum(self, s):
         # Don't recurse into this
-        pass
+        if self.do_copy_level > 0:
+            self._expr = s
     
     def visit_expr_array_product(self, s):
         # Don't recurse into this
-        pass
+        if self.do_copy_level > 0:
+            self._expr = s
 
     def visit_expr_array_subscript(self, s : ExprArraySubscriptModel):
         if self.phase != 1:
